@@ -290,16 +290,40 @@ func c10IssuePathScenario(x *mc.X) *mc.Outcome {
 	zh.Reset()
 	zh.Install(x, zh.PoolLIFO, zh.OrderFree)
 	mode := x.Choose(2, "mode")
-	where := x.Choose(4, "where") // 0 root test, 1 field test, 2 required, 3 slice element test
+	// 0 root test, 1 field test, 2 required, 3 slice element test; 4..8: a PASSING test carries the IssuePath and an
+	// issue that belongs to no test (PostTransform error, required) arises on the same node, on a sibling, on the
+	// record, or in a later call: it must be keyed by its own node's path
+	where := x.Choose(9, "where")
 	custom := []string{"custom", "a", "deep.path[3]", "l[0]"}[x.Choose(4, "issuePath")]
 	type D struct {
 		A string
 		L []string
 	}
 	fail := func(v any, ctx z.Ctx) bool { return false }
+	pass := func(v any, ctx z.Ctx) bool { return true }
+	boom := func(p any, ctx z.Ctx) error { return fmt.Errorf("transform failed") }
 	var s *z.StructSchema
 	wantKeys := map[string]int{}
+	valid := false
 	switch where {
+	case 4:
+		s, valid = z.Struct(z.Schema{"a": z.String().Min(1, z.IssuePath(custom)).PostTransform(boom), "l": z.Slice(z.String())}), true
+		wantKeys["a"]++
+	case 5:
+		s, valid = z.Struct(z.Schema{"a": z.String().Min(1, z.IssuePath(custom)), "l": z.Slice(z.String()).PostTransform(boom)}), true
+		wantKeys["l"]++
+	case 6:
+		s, valid = z.Struct(z.Schema{"a": z.String().Min(1), "l": z.Slice(z.String())}).TestFunc(pass, z.IssuePath(custom)).PostTransform(boom), true
+		wantKeys["$root"]++
+	case 7:
+		s, valid = z.Struct(z.Schema{"a": z.String().Min(1, z.IssuePath(custom)), "l": z.Slice(z.String()).Required()}), true
+		wantKeys["l"]++
+	case 8:
+		// an earlier, successful call of an unrelated schema whose test carries the IssuePath
+		var tmp string
+		z.String().Min(1, z.IssuePath(custom)).Parse("ok", &tmp)
+		s, valid = z.Struct(z.Schema{"a": z.String(), "l": z.Slice(z.String())}).PostTransform(boom), true
+		wantKeys["$root"]++
 	case 0:
 		s = z.Struct(z.Schema{"a": z.String().Min(5), "l": z.Slice(z.String())}).TestFunc(fail, z.IssuePath(custom), z.IssueCode("rootfail"))
 		wantKeys[custom]++
@@ -320,13 +344,14 @@ func c10IssuePathScenario(x *mc.X) *mc.Outcome {
 	var d D
 	if mode == 0 {
 		data := map[string]any{"a": "ab", "l": []any{"x", "y"}}
-		if where == 2 {
+		if where == 2 || where == 7 {
 			delete(data, "l")
 		}
+		_ = valid
 		m = s.Parse(data, &d)
 	} else {
 		d = D{A: "ab", L: []string{"x", "y"}}
-		if where == 2 {
+		if where == 2 || where == 7 {
 			d.L = nil
 		}
 		m = s.Validate(&d)
@@ -342,7 +367,7 @@ func c10IssuePathScenario(x *mc.X) *mc.Outcome {
 	out.Sample = map[string]any{"where": where, "issuePath": custom, "keys": fmt.Sprint(gotKeys)}
 	if !reflect.DeepEqual(wantKeys, gotKeys) {
 		x.Note("mode %d where %d IssuePath(%q)", mode, where, custom)
-		out.Viol = append(out.Viol, &mc.Violation{Key: fmt.Sprintf("C10:issuepath:%d", where), What: "IssuePath does not override the path of exactly its own test", Expected: fmt.Sprint(wantKeys), Observed: fmt.Sprint(gotKeys)})
+		out.Viol = append(out.Viol, &mc.Violation{Key: fmt.Sprintf("C10:issuepath:%d", where), What: "IssuePath does not override the path of exactly its own test (cases 4-8: an issue that belongs to no test must be keyed by its own node's path)", Expected: fmt.Sprint(wantKeys), Observed: fmt.Sprint(gotKeys)})
 		return out
 	}
 	if msg := c10Invariants(m); msg != "" {
@@ -363,7 +388,7 @@ func c10Items(tier string, mk func(tier string, tags map[string]int, focus []str
 		}
 	}
 	// (B) uniform tag configurations × ≤2 focus units
-	for _, cfg := range []int{0, 1, 2, 3, 5, 6} {
+	for _, cfg := range []int{0, 1, 2, 3, 5, 6, 7} {
 		tv := uniformTags(fields, cfg)
 		for _, fs := range focusSets(units, 2) {
 			if len(fs) < 2 {
@@ -376,7 +401,7 @@ func c10Items(tier string, mk func(tier string, tags map[string]int, focus []str
 	// uniform tag configurations × ≤2 focus units
 	pf := recordFieldsPtr()
 	ptrUnits := skelUnits(recordSkel(FEMap, map[string]int{shapeKey: 1}, false), 2)
-	for _, cfg := range []int{0, 1, 2, 3} {
+	for _, cfg := range []int{0, 1, 2, 3, 7} {
 		tv := uniformTags(pf, cfg)
 		tv[shapeKey] = 1
 		for _, fs := range focusSets(ptrUnits, 2) {
@@ -389,7 +414,7 @@ func c10Items(tier string, mk func(tier string, tags map[string]int, focus []str
 func init() {
 	Register(&Prop{
 		ID:    "C10",
-		Rule:  "one execution = one record case: record schema Struct{s,i,l:[]string,n:Struct{s2,b2[,d:Struct{s3,i3}]}} × struct-tag assignment (per field none | zog | source | both | source with [] suffix | foreign tags whose key ends in the source tag name | zog tag containing a comma; ≤2 fields deviating × ≤1 focus unit, and the six uniform assignments × ≤2 focus units) × front end {Go map, zjson, zhttp JSON, zhttp JSON of unknown length, form, query, env} (+Validate for Go values) × focus units over Required × tests × input classes × identity and reversed field visit order at every struct visit (both relative orders of any two fields); oracle: issue keys/paths == documented key chain, map invariants, $first == first recorded issue, sanitizers; plus IssuePath overrides at root/field/required/element tests; non-trivial = every expressible case; distinct = distinct (front end, mode, tags, expected issues). plus, for sequences whose first call parses the record through a front end, " + callsRule,
+		Rule:  "one execution = one record case: record schema Struct{s,i,l:[]string,n:Struct{s2,b2[,d:Struct{s3,i3}]}} × struct-tag assignment (per field none | zog | source | both | source with [] suffix | foreign tags whose key ends in the source tag name | zog tag containing a comma | (uniform only) renamed to a sibling's schema key; ≤2 fields deviating × ≤1 focus unit, and the seven uniform assignments × ≤2 focus units) × front end {Go map, zjson, zhttp JSON, zhttp JSON of unknown length, form, query, env} (+Validate for Go values) × focus units over Required × tests × input classes × identity and reversed field visit order at every struct visit (both relative orders of any two fields); oracle: issue keys/paths == documented key chain, map invariants, $first == first recorded issue, sanitizers; plus IssuePath overrides at root/field/required/element tests, and IssuePath on a passing test next to PostTransform errors / required issues of the same node, a sibling, the record, or a later call; non-trivial = every expressible case; distinct = distinct (front end, mode, tags, expected issues). plus, for sequences whose first call parses the record through a front end, " + callsRule,
 		Floor: 50,
 		Bound: func(tier string) string {
 			if tier == "thorough" {
